@@ -186,7 +186,11 @@ def compose(Ds, f):
 
 
 def eval_stack(ns, api, kinds, fshape, placement, st):
-    Ds = [ns['D%d_%s' % (i + 1, k)] for i, k in enumerate(kinds)]
+    # a kind written 'none@1' names decorator function 1 whatever its position: the same wrapping function may
+    # occur several times in one stack
+    idxs = [int(k.partition('@')[2] or i + 1) for i, k in enumerate(kinds)]
+    kinds_ = [k.partition('@')[0] for k in kinds]
+    Ds = [ns['D%d_%s' % (i, k)] for i, k in zip(idxs, kinds_)]
     sigattr = placement.endswith('_sig')
     placement = placement[:-4] if sigattr else placement
     method = placement == 'method'
@@ -201,12 +205,12 @@ def eval_stack(ns, api, kinds, fshape, placement, st):
     st.inc('states')
     try:
         g = f
-        for D in reversed(Ds):
-            g = build(api, D, g)
+        for j, D in reversed(list(enumerate(Ds))):
+            g = build(('decorator', 'wrapper_decorator')[j % 2] if api == 'mixed' else api, D, g)
     except Exception as e:  # noqa
         st.violation('decoration-raises', case, dict(base, error='%s: %s' % (type(e).__name__, e)), {})
         return
-    dshapes = [deco_shape(i + 1, k) for i, k in enumerate(kinds)]
+    dshapes = [deco_shape(i, k) for i, k in zip(idxs, kinds_)]
     if placement == 'function':
         check_object(g, compose(Ds, f), dshapes + [fshape], Ds, st, case, base, 'function')
         st.seen('result', (api, kinds, fshape, placement))
@@ -373,6 +377,13 @@ def work_items(tier):
     for api in ('decorator', 'wrapper_decorator'):
         for kinds in itertools.product(deep, repeat=3):
             items.append(('stackreps3', api, kinds, 'function', 0, 0))
+    # the same wrapping function more than once in a stack
+    for api in ('decorator', 'wrapper_decorator', 'mixed'):
+        for r in (2, 3):
+            for seq in itertools.product((1, 2), repeat=r):
+                if len(set(seq)) < r:
+                    for placement in ('function', 'method', 'staticmethod'):
+                        items.append(('stackreps3', api, tuple('none@%d' % i for i in seq), placement, 0, 0))
     items.append(('forwarding', None, None, None, 0, 0))
     items.append(('fwd_decorated', None, None, None, 0, 0))
     items.append(('exceptions', None, None, None, 0, 0))
